@@ -1095,7 +1095,7 @@ func genPlainCase(r *vh.Rng, pre []Op) Case {
 			}
 		}
 		c.Ops = append(c.Ops, op)
-		if shrinks && r.Chance(35) {
+		if shrinks && r.Chance(50) {
 			// a write that leaves a gap above the new length (within the old capacity), then the gap is read
 			c.Ops = append(c.Ops, Op{O: "set", Rl: true, K: uint64(1 + r.Intn(3)), V: genVal(r)})
 			switch r.Pick(30, 30, 25, 15) {
